@@ -22,10 +22,12 @@ Reason(e, s) ==
     [] e.ev = "reread"  -> IF e.frags = s.held THEN "" ELSE "fragment_aliases_input"
     [] e.ev = "depack"  ->
          IF e.res = "panic" THEN "outcome_panic"
-         ELSE IF e.len = 0 THEN (IF e.res = "err" THEN "" ELSE "empty_accepted")
-         ELSE IF e.res # "ok" THEN "nonempty_rejected"
-         ELSE IF e.out # Inp(e) THEN "payload_changed"
-         ELSE IF ~(e.head /\ e.tail) THEN "partition_flags" ELSE ""
+         ELSE IF e.len = 0 /\ e.res # "err" THEN "empty_accepted"
+         ELSE IF e.len > 0 /\ e.res # "ok" THEN "nonempty_rejected"
+         ELSE IF e.len > 0 /\ e.out # Inp(e) THEN "payload_changed"
+         ELSE IF ~(e.head /\ e.tail) THEN "partition_flags"          \* "always": also for the payloads Unmarshal rejects
+         ELSE IF \E k \in 1..Len(e.heads) : ~e.heads[k] THEN "partition_head_not_always"
+         ELSE IF \E k \in 1..Len(e.tails) : ~e.tails[k] THEN "partition_tail_not_always" ELSE ""
     [] OTHER -> "unknown_event"
 
 Step(e, s) == IF e.ev = "payload" /\ ~e.big THEN [s EXCEPT !.held = e.frags] ELSE s
